@@ -105,7 +105,7 @@ def generate(rng, tier):
             moved.add(src)
             renames2.append({"op": "rename", "src": src, "dst": dst, "fault": "rename_second_round", "kind": "second-round"})
     return {"world": env, "ops": setup, "renames": renames, "news": news, "dr": dr, "edit_seed": rng.getrandbits(30),
-            "renames2": renames2}
+            "renames2": renames2, "forgot_dr_first": rng.random() < 0.2}
 
 
 def execute(sc, ctx):
@@ -159,6 +159,12 @@ def execute(sc, ctx):
         ctx.violate({"kind": "control-without-dr", "cmd": "verify", "cause": r.brief()},
                     f"verify on the renamed tree -> {r.brief()} new {sorted(new)}, expected 21 / {sorted(want_new)}")
         return
+    # the user may first have run create without -dr (exit 10, the new paths get recorded as new files) ...
+    if sc.get("forgot_dr_first"):
+        r = w.run_cmd(["create", w.root] + gen.fmt_args(f1))
+        ctx.evaluations += 1
+        w.advance(2_000_000)
+        ctx.probe("plain_create_before_create_dr")
     # main world: create -dr
     pre_names = set(scen.all_ascmhl_files(w.base))
     r, _ = scen.run_op(w, scen.cmd(*sc["dr"]))
